@@ -5,7 +5,9 @@ check("C14", "model_checking",
       "tiling invariants on the reference output and emits the expected items; both real lexers are run on every text and kinds, "
       "payload limbs, suffix types, bytes, spans, line/column and error codes are compared with the rule and with each other. Random "
       "token soups / arbitrary bytes are recorded from the real lexers and every recording is accepted or rejected by TLC "
-      "(Trace_Lex re-lexes the logged bytes). Exhaustive within the bound on the real code, sampled beyond it.",
+      "(Trace_Lex re-lexes the logged bytes). Exhaustive within the bound on the real code, sampled beyond it. Scaled texts (MC_LexBig.tla: two scaling "
+      "lemmas checked by TLC on the reference lexer): tokens ending / starting exactly at offsets 256 / 4096 / 65536, line / token / error / payload counts and "
+      "lexeme lengths / columns across 2^8, 2^10, 2^16; long random texts up to 180 KB and a 1.5 MB counting text recorded as windows.",
       "Trusted: TLC, the rule PenneLex.tla, Wide.tla (model-checked limb arithmetic; NumValue is checked against Wide!Parse on every "
       "enumerated literal), the projection of tokens in harness/src/lex/obs.rs. Unconstrained cells (docs silent) are listed in "
       "docs/notes-lex.md. Deviations are keyed by a precisely described input shape (signature :: text); the genuine findings, their "
